@@ -4,6 +4,7 @@ package main
 //
 //	close@k   the k-th close of a file opened for writing fails after losing half of the data (quota / NFS style)
 //	write@k   the k-th write request fails
+//	die@k     the server process exits in the middle of the k-th write request
 //	list@k    the k-th directory listing is refused (permission denied)
 //	stat@k    every stat request from the k-th on fails (general failure)
 //
@@ -49,6 +50,12 @@ type faultyFile struct {
 }
 
 func (w *faultyFile) WriteAt(p []byte, off int64) (int, error) {
+	if w.h.kind == "die" && atomic.LoadInt64(&w.h.writes)+1 == w.h.k {
+		// the connection goes away in the middle of an upload: half of this write reaches the file, then nothing more
+		w.f.WriteAt(p[:len(p)/2], off)
+		w.h.delivered(fmt.Sprintf("die-on-write#%d %s", w.h.k, w.f.Name()))
+		os.Exit(0)
+	}
 	if n := atomic.AddInt64(&w.h.writes, 1); w.h.kind == "write" && n == w.h.k {
 		w.h.delivered(fmt.Sprintf("write#%d %s", n, w.f.Name()))
 		return 0, errors.New("injected write failure")
